@@ -367,6 +367,40 @@ Print Assumptions cg_terminates_spd_sparse_R.
 Example cg_terminates_spd_sparse_R_nonvacuous : wfS exr_s /\ sp_rows exr_s = sp_cols exr_s /\ sp_symmetric exr_s /\ sp_posdef exr_s.
 Proof. destruct exr_spd_hyps as (H1 & H2 & H3 & H4 & _). auto. Qed.
 
+(* tol = 0: in exact arithmetic CG is a DIRECT solver for SPD systems -- within n iterations it returns x with A x = b exactly, and that x is
+   the solution (every xs with A xs = b equals it): the "agreement with the direct solution" of C09, in exact arithmetic *)
+Theorem cg_direct_solver_R : forall n (mulA : list R -> res (list R)), @LinOp AR n mulA -> @SymOp AR n mulA ->
+  forall (b x0 : list R) max,
+  PosDef n mulA -> length b = n -> length x0 = n -> n <= max ->
+  exists k x g, @solve_cg SAR mulA n n b x0 max 0%R = Ok (IOk k, x, g) /\ k <= n /\ mulA x = Ok b /\
+    forall xs, length xs = n -> mulA xs = Ok b -> xs = x.
+Proof. intros n mulA LO SYM b x0 max. exact (cg_direct_solver_R n mulA LO SYM b x0 max). Qed.
+Check cg_direct_solver_R : forall n (mulA : list R -> res (list R)), @LinOp AR n mulA -> @SymOp AR n mulA ->
+  forall (b x0 : list R) max,
+  PosDef n mulA -> length b = n -> length x0 = n -> n <= max ->
+  exists k x g, @solve_cg SAR mulA n n b x0 max 0%R = Ok (IOk k, x, g) /\ k <= n /\ mulA x = Ok b /\
+    forall xs, length xs = n -> mulA xs = Ok b -> xs = x.
+Print Assumptions cg_direct_solver_R.
+Example cg_direct_solver_R_nonvacuous : @LinOp AR 2 (@sp_mul AR exr_s) /\ @SymOp AR 2 (@sp_mul AR exr_s) /\ PosDef 2 (@sp_mul AR exr_s).
+Proof. destruct exr_spd_hyps as (_ & _ & _ & _ & H1 & H2 & H3). auto. Qed.
+
+Theorem cg_direct_solver_sparse_R : forall (s : sparse AR) (b x0 : list R) max,
+  wfS s -> sp_rows s = sp_cols s -> sp_symmetric s -> sp_posdef s ->
+  length b = sp_rows s -> length x0 = sp_rows s -> sp_rows s <= max ->
+  exists k x g, @run_sparse SAR CG s b x0 max 0%R = Ok (IOk k, x, g) /\ k <= sp_rows s /\
+    @sp_apply AR s x = b /\
+    forall xs, length xs = sp_rows s -> @sp_apply AR s xs = b -> xs = x.
+Proof. intros s b x0 max. exact (cg_direct_solver_sparse_R s b x0 max). Qed.
+Check cg_direct_solver_sparse_R : forall (s : sparse AR) (b x0 : list R) max,
+  wfS s -> sp_rows s = sp_cols s -> sp_symmetric s -> sp_posdef s ->
+  length b = sp_rows s -> length x0 = sp_rows s -> sp_rows s <= max ->
+  exists k x g, @run_sparse SAR CG s b x0 max 0%R = Ok (IOk k, x, g) /\ k <= sp_rows s /\
+    @sp_apply AR s x = b /\
+    forall xs, length xs = sp_rows s -> @sp_apply AR s xs = b -> xs = x.
+Print Assumptions cg_direct_solver_sparse_R.
+Example cg_direct_solver_sparse_R_nonvacuous : wfS exr_s /\ sp_rows exr_s = sp_cols exr_s /\ sp_symmetric exr_s /\ sp_posdef exr_s.
+Proof. destruct exr_spd_hyps as (H1 & H2 & H3 & H4 & _). auto. Qed.
+
 Theorem cg_error_monotone_sparse_R : forall (s : sparse AR) (b x0 xs : list R) max tol res x g,
   wfS s -> sp_symmetric s ->
   (forall v, length v = sp_cols s -> (0 <= @dot_raw AR v (@sp_apply AR s v))%R) ->
